@@ -823,8 +823,13 @@ static int ec_substitute(char *loc, char *cmd, char *arg, char *txt)
 			sbuf_mem(r, ln, offs[0]);
 			replace(r, xrep, ln, offs);
 			ln += offs[1];
-			if (offs[1] <= 0)	/* zero-length match */
-				sbuf_chr(r, (unsigned char) *ln++);
+			if (offs[1] <= 0) {	/* zero-length match */
+				int l = 1;
+				while (((unsigned char) ln[l] & 0xc0) == 0x80)
+					l++;
+				sbuf_mem(r, ln, l);
+				ln += l;
+			}
 			if (!*ln || *ln == '\n' || !strchr(s, 'g'))
 				break;
 		}
